@@ -351,7 +351,7 @@ pub fn main(args: &Args) -> ! {
         std::process::exit(0);
     }
     explore::quiet_panics();
-    let mut rep = Report::new("C17", args, "exploration");
+    let mut rep = Report::new("C17", args, "fault_enumeration");
     let dl = deadline(if thorough { 1500 } else { 50 });
     let k_mask: u32 = if thorough { 10 } else { 7 };
     rep.rule = format!("A client holding a session ticket (model TLS, remembered server transport parameters taken from a real earlier handshake) starts its workload before the handshake completes. E3: for every early workload (streams of both directions, finishes, a reset, a stop, empty streams, datagrams, 30 kB exceeding the initial window and more streams than a small limit) x server accepts / rejects early data x Retry or not x accept immediately / only at a later step (early packets wait in the endpoint buffer) x remembered parameters equal / smaller / larger than the new ones, EVERY drop subset of the first K={k_mask} datagrams of both directions is run; E2: every <=k dup/delay/drop deviation in the first datagrams. Oracles: accepted => the server application obtains every early byte exactly once, in order, unaltered, and the workload completes (in-app integrity oracle + completion); rejected => no byte or datagram written early reaches the server application (early writes are salted so they are distinguishable), every early stream answers ClosedStream afterwards, accepted_0rtt() tells the truth, and once the restarted workload completes the connection's stream ids, per-direction counters, data_sent, unacknowledged bytes, peer limits and everything the server application saw equal those of a fresh ticket-less connection running the same workload; accepted with reduced limits => the client ends the connection with PROTOCOL_VIOLATION. Non-trivial = executions whose trace differs from the fault-free one of their configuration; distinct = distinct trace hashes.");
